@@ -211,6 +211,10 @@ def main(tier):
                 key = 'nudging:option-nudgeSharedPathsWithCommonEndPoint-off:endpoint-of-one-connector-on-the-shared-path'
             if t == 'endpoint-moved' and (x['opts'] & 1):
                 key = 'nudging:option-nudgeOrthogonalSegmentsConnectedToShapes:endpoint-moved'
+            if t.startswith('overlap-') and (x['opts'] & 1) and sum(1 for c in x['conns'] if len(c['disp']) >= 2 and (c['disp'][0] != c['src'] or c['disp'][-1] != c['dst'])) >= 2:
+                # (class name only) F13 again: with that option on, the end segments of connectors with free endpoints are nudged like interior
+                # ones -- the endpoints of at least two connectors of this scene were moved, and the segments carrying them end up on one line
+                key = 'nudging:option-nudgeOrthogonalSegmentsConnectedToShapes:overlap-between-connectors-whose-endpoints-were-moved'
             if t == 'exception':
                 m = re.search(r'expression: (.*)', x['what'])
                 key = 'assertion:' + re.sub(r'[^A-Za-z0-9_>!=<-]+', '', m.group(1))[:60] if m else (RC.crash_key(x['what']) if x['what'].startswith('process died') else 'exception')
